@@ -178,6 +178,15 @@ CLAIMED = {
         "DESIGN.md §4 C18",
         "fault_enumeration",
     ),
+    "C17": (
+        "differential: real snowflake connector over loopback HTTP (uvicorn + fakesnow.server.app) vs in-process FakeSnow on twin state; raw-request session histories",
+        "Generated typed tables with edge values and NULLs, the statement catalogue of every kind, failing statements, and histories of "
+        "logins/requests with good and bad tokens are run through the real connector against the server and through the in-process "
+        "fake; rows (value and Python type), description, rowcount, errors, per-session context/variables, data sharing and 401 handling are compared. Exploration.",
+        "The server runs in the check's own process under uvicorn on a loopback port; JSON compared parsed; path-backed logins not exercised.",
+        "DESIGN.md §4 C17",
+        "exploration",
+    ),
 }
 
 NOT_YET = {}
